@@ -510,6 +510,7 @@ func c14Sweep() *core.Space {
 		}},
 	}
 	optSets := [][]ucfg.Option{nil, {ucfg.PathSep(".")}, {ucfg.PathSep("."), ucfg.VarExp}}
+	const c14NumGetters = 6 // Bool .. Child: their errors are judged for the path they name
 	radices := []int{len(entries), len(names), len(idxs), len(optSets)}
 	return &core.Space{
 		Name: "api-error-sweep",
@@ -543,6 +544,16 @@ func c14Sweep() *core.Space {
 				}
 				if ue.Reason() == nil || ue.Class() == nil {
 					res = core.Fail("sweep", "NIL-REASON-OR-CLASS "+e.Name, firstLine(err.Error()))
+					return
+				}
+				if d[0] < c14NumGetters {
+					if segs, exists, ok := c14SweepPath(base, names[d[1]], idxs[d[2]], d[3] > 0); ok {
+						if r, good := c14JudgeGetter(e.Name, err, segs, exists); !good {
+							res = r
+						} else {
+							res.Outcome = "error naming the path"
+						}
+					}
 				}
 			})
 			if pi != nil {
@@ -562,6 +573,6 @@ func init() {
 			"errors of third-party decoders and of package parse (plain errors by design) are outside the clause",
 			"the path is matched as a quoted dotted path in the first line of the message (critical errors append a stack trace)",
 		},
-		Spaces: func(tier string) []*core.Space { return []*core.Space{c14Sweep(), c14Space()} },
+		Spaces: func(tier string) []*core.Space { return []*core.Space{c14Sweep(), c14Space(), c14AbsentSpace(), c14GenericSpace()} },
 	})
 }
